@@ -29,22 +29,32 @@ type Validator struct {
 // NewValidator compiles the rendered schema. An error means the rendering
 // itself is not a valid document of its kind (a harness defect).
 func NewValidator(f Format, m *Model, source string) (*Validator, error) {
+	var names []string
+	for _, d := range m.Defs {
+		names = append(names, d.Name)
+	}
+	return NewValidatorFor(f, names, source)
+}
+
+// NewValidatorFor compiles any schema document of the format (e.g. one cog
+// emitted) for the named definitions.
+func NewValidatorFor(f Format, names []string, source string) (*Validator, error) {
 	v := &Validator{format: f}
 	switch f {
 	case JSONSchema:
 		v.js = map[string]*jsonschema.Schema{}
-		for _, d := range m.Defs {
+		for _, name := range names {
 			c := jsonschema.NewCompiler()
 			c.Draft = jsonschema.Draft7
 			c.AssertFormat = true
 			if err := c.AddResource("mem://schema.json", strings.NewReader(source)); err != nil {
 				return nil, err
 			}
-			s, err := c.Compile("mem://schema.json#/definitions/" + d.Name)
+			s, err := c.Compile("mem://schema.json#/definitions/" + jsonPointerEscape(name))
 			if err != nil {
 				return nil, err
 			}
-			v.js[d.Name] = s
+			v.js[name] = s
 		}
 	case OpenAPI:
 		loader := openapi3.NewLoader()
@@ -64,6 +74,10 @@ func NewValidator(f Format, m *Model, source string) (*Validator, error) {
 		}
 	}
 	return v, nil
+}
+
+func jsonPointerEscape(s string) string {
+	return strings.NewReplacer("~", "~0", "/", "~1", "%", "%25", " ", "%20").Replace(s)
 }
 
 // Validate returns nil when the reference validator accepts the document as an
